@@ -336,6 +336,10 @@ func mixCases(prop string) []Case {
 	add([]string{sendFixed("USD", "{ @a $w }", "@d")}, wv)
 	add([]string{sendFixed("USD", "{ @a $w allowing overdraft up to %K @b }", "{ max %C to @d remaining to $w }")}, wv)
 	add([]string{sendFixed("USD", "max %C from { $w @a }", "@d"), sendFixed("USD", "@a", "$w"), sendFixed("USD", "{ @a @b }", "@e")}, wv)
+	// two account variables holding the same name: a posting from the account to itself, then a draw from it
+	xy := map[string][2]string{"x": {"account", "acc:a"}, "y": {"account", "acc:a"}}
+	add([]string{sendFixed("USD", "$x", "$y"), sendFixed("USD", "{ $x @world }", "@d")}, xy)
+	add([]string{sendFixed("USD", "$x", "{ 1/2 to $y 1/2 to @b }"), sendAll("USD", "{ $y @b }", "@d")}, xy)
 	// deep nesting
 	add([]string{sendFixed("USD", "{ 1/2 from { max %C from { @a @b } @c } remaining from @a }", "@d")}, nil)
 	add([]string{sendFixed("USD", "max %C from { @a allowing overdraft up to %K max %C from { @b @a } }", "{ max %C to { 1/2 to @d 1/2 kept } remaining to @e }")}, nil)
